@@ -139,3 +139,45 @@ def with_hooks(lib, mode):
     if lib.ledger_live() != 0:
         raise Violation("harness: allocator switch with live blocks", key="harness")
     lib.ledger_install(mode)
+
+
+class Arena:
+    """borrowed key / string memory for ownership-flag variants (read-only guarded pages)"""
+
+    def __init__(self, lib):
+        self.lib = lib
+        self.ptrs = []
+
+    def put(self, b):
+        p = self.lib.guard_ro(b + b"\x00", len(b) + 1)
+        self.ptrs.append(p)
+        return p
+
+    def close(self):
+        for p in self.ptrs:
+            self.lib.guard_release(p)
+        self.ptrs = []
+
+
+def build_flagged(lib, jv, arena, rnd, p_const=0.5, p_ref=0.3):
+    """the same VALUE as build_tree(jv), but with ownership flags sprinkled in: members added with constant keys
+    (cJSON_AddItemToObjectCS, key in read-only memory), strings as cJSON_CreateStringReference.  Functions that only
+    look at values must not care."""
+    t = jv[0]
+    if t == "S" and b"\x00" not in jv[1] and rnd.random() < p_ref:
+        return lib.cJSON_CreateStringReference(arena.put(jv[1]))
+    if t == "A":
+        a = lib.cJSON_CreateArray()
+        for ch in jv[1]:
+            lib.cJSON_AddItemToArray(a, build_flagged(lib, ch, arena, rnd, p_const, p_ref))
+        return a
+    if t == "O":
+        o = lib.cJSON_CreateObject()
+        for k, ch in jv[1]:
+            c = build_flagged(lib, ch, arena, rnd, p_const, p_ref)
+            if rnd.random() < p_const:
+                lib.cJSON_AddItemToObjectCS(o, arena.put(k), c)
+            else:
+                lib.cJSON_AddItemToObject(o, k, c)
+        return o
+    return build_tree(lib, jv)
